@@ -7,6 +7,8 @@ All theorems quantify over every state reachable by ANY accepted history
 -/
 import Martian.Sched
 import Proofs.Sched
+import Martian.SchedTables
+import Proofs.SchedTables
 import Gen.Facts
 
 namespace Props.C02
@@ -19,6 +21,81 @@ theorem precedence_matches_source : Gen.metaStatePrecedence = precedenceNames :=
 /-- Regenerated obligation: `Fork.getState` consults own metadata, join, chunks,
 split in this order (the order `forkStateOf` implements). -/
 theorem fork_state_order_matches_source : Gen.forkStateOrder = forkStateOrderNames := by decide
+
+/-! ### the transition structure of the Go state functions, regenerated
+
+Each `…_matches_source` theorem compares a table regenerated from the Go source on every
+run (extract/sched_steps.go: which condition is tested in which order and what each arm
+does) with the model's table; the theorem next to it proves that the model's function IS
+the interpretation of that table.  A re-ordered test, a changed condition or a changed
+return value in `Fork.getState` / `Node.getState` / `Fork.stepStage` breaks the first
+kind at once. -/
+
+/-- `Fork.getState`: its statements (own metadata: return if failed/complete/disabled;
+join metadata: failed or `join_`+state; chunk loop; split metadata: failed or
+`split_`+state; `Ready`), in this order -/
+theorem fork_getState_steps_match_source : Gen.forkGetStateSteps = forkStepsNames := by decide
+
+/-- … the `switch` over a chunk's state inside the chunk loop … -/
+theorem fork_chunk_switch_matches_source : Gen.forkChunkSwitch = chunkSwitchNames := by decide
+
+/-- … and the flags tested after the loop (`complete` before `running`). -/
+theorem fork_chunk_after_matches_source : Gen.forkChunkAfter = chunkAfterNames := by decide
+
+/-- the model's `forkStateOf` (= `Fork.getState`) is the interpretation of these tables:
+`runSteps` walks `forkSteps`, the chunk part is `chunkSumTable` (the loop `chunkLoop`
+driven by `chunkSwitch`) -/
+theorem forkStateOf_is_table (fm jm sm : Option MState) (cs : List (Option MState)) :
+    forkStateOf fm jm cs sm = runSteps fm jm sm (chunkSumTable cs) forkSteps :=
+  forkStateOf_eq_table fm jm sm cs
+
+/-- `Node.getState`: the `if / else if / else if` chain of its fork loop (failed → return
+Failed; neither complete nor disabled → break; not disabled → disabled = false) … -/
+theorem node_getState_loop_matches_source : Gen.nodeGetStateLoop = nodeLoopNames := by decide
+
+/-- … and what follows the loop (complete&&disabled → Disabled, complete → Complete, an
+unfinished prenode → Waiting, else Running); the right-hand side is computed from the
+model's `nodeStateOf` on witnesses. -/
+theorem node_getState_tail_matches_source : Gen.nodeGetStateTail = nodeTailNames := by decide
+
+/-- the model's fork loop `scanForks` is the interpretation of that chain
+(`scanTable`: first arm of `nodeLoopTable` whose condition holds) -/
+theorem scanForks_is_table (l : List FState) (d : Bool) : scanForks l d = scanTable l d :=
+  scanForks_eq_table l d
+
+/-- `Fork.stepStage`: the chain `if state == X { state = self.doY() }` in source order -/
+theorem stepStage_chain_matches_source : Gen.stepStageChain = stageChainNames := by decide
+
+/-- every scheduler action the model allows happens in a fork state to which that chain
+assigns this very action (`stageAction` = first arm of the chain for the state):
+a split is submitted / a split stub is written / a stage fork is disabled in `doSplit`
+(state `ready`); chunks are submitted in `doChunks` (state `split_complete`); the join
+is submitted in `doJoin` (state `chunks_complete`; or, no chunks defined, in the same
+pass from `split_complete`); the fork's `_complete` is written in `doComplete` (state
+`join_complete`) — in the last three cases unless the fork has meanwhile failed. -/
+theorem scheduler_actions_follow_stepStage {s : State} {n f : Nat} :
+    (launchOk s ⟨n, f, .split⟩ = true → stageAction (forkState s n f) = some .doSplit) ∧
+    (mrpWriteOk s ⟨n, f, .split⟩ .complete = true →
+      stageAction (forkState s n f) = some .doSplit) ∧
+    (s.kind n ≠ .pipeline → mrpWriteOk s ⟨n, f, .fork⟩ .disabled = true →
+      stageAction (forkState s n f) = some .doSplit) ∧
+    (∀ i, launchOk s ⟨n, f, .chunk i⟩ = true →
+      stageAction (forkState s n f) = some .doChunks ∨ forkState s n f = .failed) ∧
+    (launchOk s ⟨n, f, .join⟩ = true →
+      stageAction (forkState s n f) = some .doJoin ∨
+      (s.nch n f = 0 ∧ stageAction (forkState s n f) = some .doChunks) ∨
+      forkState s n f = .failed) ∧
+    (s.kind n ≠ .pipeline → mrpWriteOk s ⟨n, f, .fork⟩ .complete = true →
+      stageAction (forkState s n f) = some .doComplete ∨ forkState s n f = .failed) :=
+  ⟨launch_split_is_doSplit, stub_split_is_doSplit, disable_is_doSplit,
+   fun _ => launch_chunk_is_doChunks, launch_join_is_doJoin, fork_complete_is_doComplete⟩
+
+/-- non-vacuity: the table-driven functions on concrete inputs -/
+example : runSteps none none (some .complete) (chunkSumTable [some .complete, some .running]) forkSteps
+    = .chunksRunning := by decide
+example : scanTable [.complete, .chunksRunning, .failed] true = .incomplete := by decide
+example : stageAction (.split .complete) = some .doChunks ∧ stageAction .chunksRunning = none := by
+  decide
 
 /-- `metaState` is "first sentinel of the precedence list that is present". -/
 theorem metaState_follows_precedence (x : SSet) : metaState x = metaStateWith precedence x := by
